@@ -102,6 +102,35 @@ def h_twins(ctx, sig, spk, wit):
                   'mutable == immutable: outputs')
 
 
+def h_edited(ctx, sig, spk, wit):
+    """a mutable object whose identifiers were already computed, then edited: it must report the identifiers of an
+    immutable object built from the new field values (no stale cache)"""
+    C = ctx.core
+    f = K.mk_tx_fields(ctx, dict(sig=sig, spk=spk, wit=wit))
+    m = K.build_tx(ctx, f, True)
+    old = (m.GetTxid(), m.GetHash(), hash(m), m.serialize())
+    g = dict(f)
+    g['nLockTime'] = ctx.int('new_lock', 0, 0xffffffff)
+    g['nVersion'] = ctx.int('new_ver', -(1 << 31), (1 << 31) - 1)
+    g['vin'] = [dict(i) for i in f['vin']]
+    g['vin'][0]['nSequence'] = ctx.int('new_seq', 0, 0xffffffff)
+    g['vin'][0]['n'] = ctx.int('new_n', 0, 0xffffffff)
+    m.nLockTime = g['nLockTime']
+    m.nVersion = g['nVersion']
+    m.vin[0].nSequence = g['vin'][0]['nSequence']
+    m.vin[0].prevout.n = g['vin'][0]['n']
+    if len(f['vout']):
+        g['vout'] = [dict(o) for o in f['vout']]
+        g['vout'][0]['nValue'] = ctx.int('new_val', -(1 << 63), (1 << 63) - 1)
+        m.vout[0].nValue = g['vout'][0]['nValue']
+    im = K.build_tx(ctx, g, False)
+    ctx.check(m.serialize() == W.tx(ctx, g), 'edited mutable: serialisation reflects current fields')
+    ctx.check(ctx.and_(m.GetTxid() == im.GetTxid(), m.GetHash() == im.GetHash()), 'edited mutable: identifiers == immutable twin of the new values')
+    ctx.check(m.GetTxid() == ctx.dsha256(W.tx(ctx, g, with_witness=False)), 'txid == H(H(stripped encoding))')
+    ctx.check(ctx.and_(m == im, hash(m) == hash(im)), 'edited mutable: == and hash() follow the new values')
+    ctx.check(m.vin[0].GetHash() == im.vin[0].GetHash(), 'edited mutable: input identifier follows the new values')
+
+
 def h_block(ctx, txshapes):
     C = ctx.core
     hf = K.mk_header_fields(ctx)
@@ -120,7 +149,7 @@ def h_block(ctx, txshapes):
     ctx.check(back.GetHash() == want, 'deserialised block hash == header hash')
 
 
-HARNESSES = {'txid': h_txid, 'twins': h_twins, 'block': h_block}
+HARNESSES = {'txid': h_txid, 'twins': h_twins, 'edited': h_edited, 'block': h_block}
 
 
 def instances(tier):
@@ -135,10 +164,13 @@ def instances(tier):
             w_a = [[1]] + [[] for _ in range(nin - 1)]
             w_b = [[] for _ in range(nin - 1)] + [[0, 2]]
             w_c = [[2]] * nin
-            for w1, w2 in ((None, w_a), (empty, w_b), ('noentries', w_c), (w_a, w_b), (w_a, w_a), ('default', empty)):
+            w_z = [[0]] + [[] for _ in range(nin - 1)]      # non-empty stack of empty items only
+            for w1, w2 in ((None, w_a), (empty, w_b), ('noentries', w_c), (w_a, w_b), (w_a, w_a), ('default', empty), (w_z, w_a), (None, w_z)):
                 out.append(dict(h='txid', p=dict(sig=sig, spk=spk, wit1=w1, wit2=w2)))
-            for w in (None, empty, w_a, w_b):
+            for w in (None, empty, w_a, w_b, w_z):
                 out.append(dict(h='twins', p=dict(sig=sig, spk=spk, wit=w)))
+            for w in (None, w_a, w_z):
+                out.append(dict(h='edited', p=dict(sig=sig, spk=spk, wit=w)))
     t_a = dict(sig=[1], spk=[1], wit=None)
     t_w = dict(sig=[0], spk=[0], wit=[[1]])
     for shp in ([], [t_a], [t_a, t_w], [t_w, t_w, t_a]):
